@@ -63,6 +63,11 @@ def np_hook(interp, d, args, kwargs, node):
             return NArr(sa + sb)
         if sa is not None and isinstance(args[1], Rat):
             return RLECat(sa + [(args[1], ("unknown-length",))])
+    if d in ("np.concatenate", "np.hstack") and len(args) == 1 and isinstance(args[0], (PList, tuple)):
+        parts = args[0].items if isinstance(args[0], PList) else list(args[0])
+        segs = [_segs(x) for x in parts]
+        if parts and all(s_ is not None for s_ in segs):
+            return NArr([sg for s_ in segs for sg in s_])
     if d in ("np.minimum", "np.maximum") and len(args) == 2 and any(isinstance(x, NArr) for x in args):
         import ast as _ast
         m = interp.compare(_ast.LtE(), args[0], args[1], node)
